@@ -333,4 +333,29 @@ Section Mask.
       + intros [Hlt [[E|End] Harg]]; [discriminate E|]. split; [|exact Hlt].
         split; [exact End|]. split; [lia|exact Harg].
   Qed.
+
+  (* no cost hypothesis: a marked position is always a counted reference position *)
+  Lemma pair_masks_lt steps k i : (k <= steps)%nat -> (i < length r)%nat ->
+    nth i (nth k (pmasks steps) []) false = true -> (i < rlen)%nat.
+  Proof.
+    intros Hk Hi. rewrite pair_masks_nth by exact Hk.
+    rewrite (nth_map2 andb _ _ i false false false)
+      by (rewrite ?raw_mask_length, ?map_length, ?seq_length; assumption).
+    rewrite nth_map_seq by exact Hi. cbn [Nat.add].
+    rewrite andb_true_iff, Nat.ltb_lt. intros [_ H]. exact H.
+  Qed.
+
+  (* ... and a finished pair marks nothing ("& not_done") *)
+  Lemma pair_masks_dead steps k i : (1 <= k)%nat -> (k <= steps)%nat -> (i < length r)%nat ->
+    nd k = false -> nth i (nth k (pmasks steps) []) false = false.
+  Proof.
+    intros H1 Hk Hi End. rewrite pair_masks_nth by exact Hk.
+    rewrite (nth_map2 andb _ _ i false false false)
+      by (rewrite ?raw_mask_length, ?map_length, ?seq_length; assumption).
+    destruct k as [|j]; [lia|]. cbn [nth].
+    destruct (masks_loop_nth steps 1 (orow0 cd r) j) as [row [Hrow En]]; [lia|apply orow0_ok|lia|].
+    rewrite En. replace (1 + j)%nat with (S j) in * by lia.
+    destruct (nth i (snd (mstep (S j) row)) false) eqn:Eb; [|reflexivity].
+    apply mask_step_bit in Eb as [End' _]; [congruence|lia|exact Hrow|exact Hi].
+  Qed.
 End Mask.
